@@ -918,7 +918,8 @@ fn probe_registry_lookup(arg: u64, sim: &Sim, obs: &Obs) -> ProbeResult {
         match res {
             Err(e) => r.findings.push(Finding::new("C14.lookup_mismatch", "single", format!("single lookup of {c} failed: {e}"))),
             Ok(v) => {
-                if v != entry_json(c) {
+                // every stored field is reported with the stored value (an entry may carry more fields)
+                if !(json_subset(&entry_json(c), &v) && (entry_json(c).is_null() == v.is_null())) {
                     r.findings.push(Finding::new("C14.lookup_mismatch", "single", format!("single lookup of {c} returns {v}, stored {}", entry_json(c))));
                 }
             }
@@ -947,7 +948,11 @@ fn probe_registry_lookup(arg: u64, sim: &Sim, obs: &Obs) -> ProbeResult {
             Err(e) => r.findings.push(Finding::new("C14.lookup_mismatch", "multi", format!("batched lookup of {:?} failed: {e}", req))),
             Ok(v) => {
                 let want: Vec<Value> = req.iter().map(|c| entry_json(c)).collect();
-                if v != Value::Array(want.clone()) {
+                let same = match v.as_array() {
+                    Some(a) => a.len() == want.len() && a.iter().zip(want.iter()).all(|(x, w)| json_subset(w, x) && (w.is_null() == x.is_null())),
+                    None => false,
+                };
+                if !same {
                     r.findings.push(Finding::new(
                         "C14.lookup_mismatch",
                         "multi",
